@@ -36,8 +36,12 @@ JudgeRes(ev, j) ==
                inp == IF run.inp.script_same THEN [run.inp EXCEPT !.script = ev.script] ELSE run.inp
                ok  == run.done /\ VerifyInput(inp, EnvOf(w, inp.rules, TRUE))
            IN IF run.variant = "exact"
-              THEN ok \/ Report("C17", "reported_locks_not_sufficient", ev, j,
-                                <<r.mode, r.abs, r.rel, IF run.done THEN VerifyWhy(inp, EnvOf(w, inp.rules, TRUE)) ELSE "not_completed">>)
+              THEN ok \/ (/\ Report("C17", "reported_locks_not_sufficient", ev, j,
+                                     <<r.mode, r.abs, r.rel, IF run.done THEN VerifyWhy(inp, EnvOf(w, inp.rules, TRUE)) ELSE "not_completed">>)
+                           \* the same observation is a C01 violation: a completed plan does not spend in a
+                           \* transaction that meets exactly the locks the plan reported
+                           /\ Report("C01", "plan_fails_with_reported_locks", ev, j,
+                                     <<r.mode, r.abs, r.rel, IF run.done THEN VerifyWhy(inp, EnvOf(w, inp.rules, TRUE)) ELSE "not_completed">>))
               ELSE ~ok \/ Report("C17", "reported_lock_not_necessary", ev, j, <<r.mode, run.variant, r.abs, r.rel>>))
 
 JudgeEvent(ev) == \A j \in 1..Len(ev.res) : JudgeRes(ev, j)
